@@ -113,14 +113,14 @@ fn judge_content(run: &Run, seed: &Seed, e: &Edit, verbose: bool) -> String {
     }
     let case = json!({"kind":"content","seed": seed.id, "edit": e.to_json()});
     match &obs {
-        Obs::Panic(p) => run.violation(format!("panic content {} {}", seed.fmt, tamper::panic_key(p)), format!("{}: {p}", seed.id), case),
+        Obs::Panic(p) => run.violation(format!("panic content {} {}", seed.keyfmt(), tamper::panic_key(p)), format!("{}: {p}", seed.id), case),
         Obs::Accepted { state, .. } => {
             // a unit edit may land inside declared-excluded bytes (e.g. an inserted box the BMFF hash excludes by xpath): not a content change
             if tamper::confined(&seed.binding, &seed.signed, &seed.excl, &seed.prot, &m) {
                 return "accepted-excluded-only".into();
             }
             run.violation(
-                format!("content-change-undetected {} {} at={} edit={}", seed.binding.name(), seed.fmt, c01::where_of(seed, e, &m), e.kind),
+                format!("content-change-undetected {} {} at={} edit={}", seed.binding.name(), seed.keyfmt(), c01::where_of(seed, e, &m), e.kind),
                 format!("{}: {} at {} changes media bytes bound by the parent manifest, the reader still reports {state}", seed.id, e.kind, e.start),
                 case,
             )
